@@ -811,12 +811,17 @@ func (st *rstate) eval(e *sx, env *renv) rval {
 			if !c.b {
 				return last
 			}
-			// a while loop propagates break/continue/return/error without consuming them (grol: RETURN type)
+			// break and continue belong to this loop, as in the counted and list forms; return and errors go up
 			v := st.block(a[1], env)
+			if st.ctl == cBreak {
+				st.ctl = cNone
+				return last
+			}
+			if st.ctl == cContinue {
+				st.ctl = cNone
+				continue
+			}
 			if st.ctl != cNone {
-				if st.ctl == cBreak || st.ctl == cContinue {
-					return st.decline()
-				}
 				return v
 			}
 			last = v
